@@ -131,7 +131,7 @@ func (c16) Gen(seed uint64, run int, tier string) *core.Case {
 	r := sim.Rng(seed, "gen")
 	cfg := swarmCfg(r, 3)
 	cfg.Versioning = true
-	p := c16Prog{Part: []string{"names", "existing", "settings", "race", "race", "race", "create-race"}[run%7]}
+	p := c16Prog{Part: []string{"names", "existing", "settings", "race", "race", "race", "create-race", "rebirth"}[run%8]}
 	c := &core.Case{Check: "C16", Property: "C16", Seed: seed, Cfg: cfg}
 	switch p.Part {
 	case "names":
@@ -167,6 +167,16 @@ func (c16) Gen(seed uint64, run int, tier string) *core.Case {
 				st.Kind = "objdel"
 			}
 			p.Steps = append(p.Steps, st)
+		}
+	case "rebirth":
+		// settings written to a bucket, the bucket deleted, the name created again: the new bucket has none
+		for _, set := range []string{"tagging", "policy", "ownershipControls", "acl"} {
+			if r.IntN(3) != 0 {
+				p.Steps = append(p.Steps, c16Step{Kind: "put", Setting: set, Doc: r.IntN(1000), GW: r.IntN(cfg.Instances)})
+			}
+		}
+		if r.IntN(3) == 0 {
+			p.Steps = append(p.Steps, c16Step{Kind: "restart", GW: r.IntN(cfg.Instances)})
 		}
 	case "create-race":
 		cfg.Instances = 1 + r.IntN(2)
@@ -531,6 +541,42 @@ func (c16) Exec(c *core.Case) (out *core.Outcome) {
 						o.Violate("settings", "C16/settings/"+st.Setting+"/survives-delete", "step %d: %s was deleted but GET still returns %q", i, st.Setting, abbreviate(got, 200))
 					}
 				}
+			}
+		}
+	case "rebirth":
+		const b = "set16" // (the documents of c16Doc name this bucket)
+		mustOK(own().Do(s3c.CreateBucket(b, KV{K: "X-Amz-Object-Ownership", V: "BucketOwnerPreferred"})), "create bucket (first life)")
+		written := map[string]string{}
+		for _, st := range p.Steps {
+			cl := e.Root()
+			cl.GW = st.GW
+			if cl.GW >= len(e.GWs) {
+				cl.GW = 0
+			}
+			if st.Kind == "restart" {
+				e.Restart(cl.GW)
+				continue
+			}
+			body, hdrs, want := c16Doc(st.Setting, st.Doc, "own16")
+			if res := cl.Do(s3c.BucketSub("PUT", b, st.Setting, body, hdrs...)); res.Resp.OK() {
+				written[st.Setting] = want
+			}
+			o.Evals++
+		}
+		mustOK(e.Root().Do(s3c.DeleteBucket(b)), "delete bucket (first life)")
+		// second life
+		mustOK(e.Root().Do(s3c.CreateBucket(b)), "create bucket (second life)")
+		o.Probe("bucket_recreated")
+		for _, set := range sortedKeys(written) {
+			res := e.Root().Do(s3c.BucketSub("GET", b, set, nil))
+			o.Evals++
+			o.AddClass("rebirth|%s|%s", set, statusClass(res.Resp.Status))
+			if !res.Resp.OK() {
+				continue
+			}
+			got := c16ReadBack(set, res.Resp.Body)
+			if got == written[set] && got != "" && got != "[]" && !(set == "ownershipControls" && got == "BucketOwnerEnforced") {
+				o.Violate("settings", "C16/settings/"+set+"/survives-bucket-deletion", "%s written to bucket %s (%s) is read back from a NEW bucket of that name, created after the first one was deleted", set, b, abbreviate(got, 200))
 			}
 		}
 	case "create-race":
